@@ -6,6 +6,7 @@ import (
 	"context"
 	"errors"
 	"fmt"
+	"strings"
 
 	"github.com/aldas/go-modbus-client/packet"
 	"verif/lib"
@@ -24,6 +25,8 @@ type Handler struct {
 	Code  uint8  // exception code for typed errors
 	Calls []Call
 	Hook  func() // called at the start of every Handle (scheduling point / virtual sleep in Engine C harnesses)
+	// HookCtx is Hook with the handler's context (which carries the client's remote address)
+	HookCtx func(ctx context.Context)
 }
 
 var ErrGeneric = errors.New("handler failed")
@@ -33,6 +36,21 @@ func (h *Handler) Handle(ctx context.Context, req packet.Request) (packet.Respon
 	h.Calls = append(h.Calls, Call{Frame: append([]byte(nil), frame...)})
 	if h.Hook != nil {
 		h.Hook()
+	}
+	if h.HookCtx != nil {
+		h.HookCtx(ctx)
+	}
+	if strings.HasSuffix(h.Mode, "-once") {
+		m := strings.TrimSuffix(h.Mode, "-once")
+		h.Mode = "device"
+		switch m {
+		case "typed-error":
+			return nil, packet.NewErrorParseTCP(h.Code, "handler refuses")
+		case "generic-error":
+			return nil, ErrGeneric
+		case "nil-nil":
+			return nil, nil
+		}
 	}
 	switch h.Mode {
 	case "typed-error":
